@@ -1,14 +1,11 @@
 ----------------------------- MODULE Trace_Faults -----------------------------
 EXTENDS Faults, Json, IOUtils
 VARIABLE dummy
-Traces == ndJsonDeserialize(IOEnv.TRACE)   \* [id, kind, k, n, outcome, leak, probe]
+Traces == ndJsonDeserialize(IOEnv.TRACE)   \* [id, kind, k, n, reject, outcome, leak, hits, probe]
 ASSUME \A i \in 1..Len(Traces) :
           LET t == Traces[i] IN
-          OutcomeAllowed(t.kind, t.k, t.n, t.outcome, t.leak, t.probe)
-          \/ PrintT(<<"BAD", ToJson([id |-> t.id, why |-> IF t.outcome \notin {"none", "exception"} THEN t.outcome
-                                                         ELSE IF t.leak # 0 THEN "leak"
-                                                         ELSE IF t.k < t.n THEN "fault did not reach the caller as an exception"
-                                                         ELSE "unreached fault point changed the outcome"])>>)
+          OutcomeAllowed(t.kind, t.k, t.n, t.reject, t.outcome, t.leak, t.hits, t.probe)
+          \/ PrintT(<<"BAD", ToJson([id |-> t.id, why |-> Why(t.kind, t.k, t.n, t.reject, t.outcome, t.leak, t.hits, t.probe)])>>)
 ASSUME PrintT(<<"CHECKED", ToJson([n |-> Len(Traces)])>>)
 Init == dummy = 0
 Next == UNCHANGED dummy
